@@ -33,9 +33,14 @@
 //@rule LOCK2 :: let scheduler_queue = self\.scheduler_queue\.lock\(\)\.unwrap\(\); :: lock_queue(&mut self.scheduler_queue, &self.time); :: R1b
 //@rule GUARDPEEK :: \bscheduler_queue\.peek\(\) :: self.scheduler_queue.peek() :: R1b
 //@rule ARMBRACE2 :: Ok\(Some\(t\)\) if t == target_time => return Ok\(\(\)\), :: Ok(Some(t)) if t == target_time => { return Ok(()) }, :: R17 braces around a match-arm expression so that a proof block can precede it
+//@rule SCHEDNEW :: Scheduler::new\(self\.scheduler_queue\.clone\(\), self\.time\.reader\(\)\) :: scheduler_handle_stub() :: R2 a handle sharing queue and time (sharing elided)
+//@rule CLOCKPARAM :: Box<dyn Clock \+ 'static> :: ClockBox :: R2
+//@rule PUBCRATENEW :: pub\(crate\) fn new :: pub fn new :: R7
+//@rule TIMEWRITEMUT :: KEEP :: KEEP :: (unused)
 //@rule IMPLDL :: deadline: impl Deadline :: deadline: impl Deadline :: R14 (kept as is)
 //@pyrule GUARD :: inline_guard(scheduler_queue ;; self.scheduler_queue ;; lock_queue(&mut self.scheduler_queue, &self.time); ;; unlock_queue(&mut self.scheduler_queue, &self.time);) :: R1b/R13 the guard variable is the locked queue itself; lock()/drop() become stub calls (functional pass: no interference; monitor pass: havoc)
 //@pyrule PUBFIELDS :: pub_fields() :: R7
+//@pyrule MUTSELFP :: mut_self_param() :: R14 `mut self` parameter desugared
 //@pyrule RET :: name_ret(res) :: R17 result named so that the contract can mention it
 //@pyrule RETACTION :: name_ret(action ;; pull_next_action) :: R17
 //@pyrule RETKEY :: name_ret(r ;; peek_next_key) :: R17
@@ -975,6 +980,99 @@ impl Simulation {
     {
         action.spawn_and_forget(&mut self.executor);
         self.run()
+    }
+//@end
+}
+
+// ---------- SimInit::init (C18: one synchronize on the start time, before any init code runs) ----------
+#[verifier::external_body]
+pub struct Scheduler { x: u8 }
+// Scheduler::new(queue.clone(), time.reader()): a handle sharing the queue and the time (sharing elided, R2)
+#[verifier::external_body]
+fn scheduler_handle_stub() -> (s: Scheduler) { unimplemented!() }
+
+pub struct SimInit {
+    pub executor: Executor,
+    pub scheduler_queue: SchedulerQueue,
+    pub time: AtomicTime,
+    pub clock: ClockBox,
+    pub clock_tolerance: Option<Duration>,
+    pub timeout: Duration,
+    pub observers: Vec<(String, ObserverBox)>,
+    pub model_names: Vec<String>,
+}
+
+impl Simulation {
+//@item src=nexosim/src/simulation.rs kind=fn name=new within=`impl Simulation` id=Simulation::new rules=QUEUEFIELD,CLOCKPARAM,OBSFIELD,PUBCRATENEW,RET props=C18,C11
+    pub fn new(
+        executor: Executor,
+        scheduler_queue: SchedulerQueue,
+        time: AtomicTime,
+        clock: ClockBox,
+        clock_tolerance: Option<Duration>,
+        timeout: Duration,
+        observers: Vec<(String, ObserverBox)>,
+        model_names: Vec<String>,
+    ) -> (res: Self)
+        //@[
+        ensures
+            res.executor == executor, res.scheduler_queue == scheduler_queue, res.time == time, res.clock == clock,
+            res.clock_tolerance == clock_tolerance, res.observers == observers, res.model_names == model_names,
+            !res.is_terminated,                                                                   //@ C11 #starts-not-terminated
+        //@]
+    {
+        Self {
+            executor,
+            scheduler_queue,
+            time,
+            clock,
+            clock_tolerance,
+            timeout,
+            observers,
+            model_names,
+            is_terminated: false,
+        }
+    }
+//@end
+}
+
+impl SimInit {
+//@item src=nexosim/src/simulation/sim_init.rs kind=fn name=init within=`impl SimInit` id=SimInit::init rules=SCHEDNEW,TIMEWRITEMUT,RET,MUTSELFP props=C18,C01,C11
+    pub fn init(
+        self,
+        start_time: MonotonicTime,
+    ) -> (res: Result<(Simulation, Scheduler), ExecutionError>)
+        //@[
+        requires
+            // nothing can have been scheduled before the first Scheduler handle exists
+            self.scheduler_queue.view().len() == 0,
+            self.executor.n_models() == self.model_names@.len(),
+        ensures
+            // C18: initialisation synchronizes exactly once, on the start time, and only then runs the init code
+            // (the order is the precondition `syncs.last() == time` of Simulation::run)
+            res matches Ok((sim, _s)) ==> sim.clock.syncs() == self.clock.syncs().push(start_time.t)     //@ C18 #init-synchronizes-once-on-the-start-time
+                && sim.executor.runs() == self.executor.runs() + 1                                      //@ C18 #init-synchronizes-once-on-the-start-time
+                && sim.time.val() == start_time.t && sim.wf() && !sim.is_terminated,                    //@ C01,C18 #init-establishes-wf
+        //@]
+    {
+        let mut self_ = self;
+        self_.time.write(start_time);
+        self_.clock.synchronize(start_time);
+
+        let scheduler = scheduler_handle_stub();
+        let mut simulation = Simulation::new(
+            self_.executor,
+            self_.scheduler_queue,
+            self_.time,
+            self_.clock,
+            self_.clock_tolerance,
+            self_.timeout,
+            self_.observers,
+            self_.model_names,
+        );
+        simulation.run()?;
+
+        Ok((simulation, scheduler))
     }
 //@end
 }
